@@ -745,3 +745,25 @@ def variant_spec(rng, spec):
     out = dict(spec)
     out['markup'] = m
     return out
+
+
+def variant_custom(rng, custom):
+    """Same alias names, one *leaf* definition changed: aliases that refer to it keep their text but change meaning."""
+
+    if not custom:
+        return None
+    names = list(custom)
+    leaves = [n for n in names if ':--' not in custom[n]] or names
+    n = rng.choice(leaves)
+    new = dict(custom)
+    new[n] = rng.choice([d for d in ('p', 'div', '.a', '.b', 'span, li', ':lang(en)', 'input:checked', 'li:nth-child(2)')
+                         if d != custom[n]])
+    return new
+
+
+CUSTOM_MAPS += [
+    {':--item': 'li:--marked', ':--marked': '.a'},
+    {':--item': 'li:--marked', ':--marked': '.b'},
+    {':--x': ':--y :--z', ':--y': 'div', ':--z': 'p'},
+    {':--x': ':--y :--z', ':--y': 'ul', ':--z': 'li'},
+]
